@@ -7,7 +7,7 @@ Import ListNotations.
 Open Scope Z_scope.
 
 Definition enc_err (e : err) : list Z :=
-  match e with ValueError => [0; 1] | OverflowError => [0; 2] | OutOfFuel => [0; 3] end.
+  match e with ValueError => [0; 1] | OverflowError => [0; 2] | OutOfFuel => [0; 3] | Unmodelled => [0; 4] end.
 
 Definition enc_tz (t : tzv) : list Z :=
   match t with TzNone => [0; 0] | TzUTC => [1; 0] | TzOff s => [2; s] end.
